@@ -94,6 +94,7 @@ func NewClientWithLogger(
 		sync.Mutex{},
 		nil,
 		false,
+		nil,
 	}
 }
 
@@ -130,6 +131,7 @@ type client struct {
 	legacyMutex                      sync.Mutex          // ATP v1 has no run IDs: one step at a time owns the connection.
 	handingOver                      chan<- schema.Input // The signal channel the read loop is sending on right now.
 	closeHandedOver                  bool                // The read loop closes that channel once the send is over.
+	streamError                      error               // Why nothing the plugin sends can be trusted any more; nil while it can.
 }
 
 func (c *client) sendCBOR(message any) error {
@@ -151,7 +153,7 @@ func (c *client) ReadSchema() (*schema.SchemaSchema, error) {
 	var hello HelloMessage
 	if err := c.decoder.Decode(&hello); err != nil {
 		c.logger.Errorf("Failed to decode ATP hello message: %v", err)
-		return nil, fmt.Errorf("failed to decode hello message (%w)", err)
+		return nil, c.streamFailed(fmt.Errorf("failed to decode hello message (%w)", err))
 	}
 	c.logger.Debugf("Hello message read, ATP version %d.", hello.Version)
 
@@ -160,18 +162,31 @@ func (c *client) ReadSchema() (*schema.SchemaSchema, error) {
 	if err != nil {
 		err = fmt.Errorf("unsupported plugin version: %w", err)
 		c.logger.Errorf(err.Error())
-		return nil, err
+		return nil, c.streamFailed(err)
 	}
 	c.atpVersion = hello.Version
 
 	unserializedSchema, err := schema.UnserializeSchema(hello.Schema)
 	if err != nil {
 		c.logger.Errorf("Invalid schema received from plugin: %v", err)
-		return nil, fmt.Errorf("invalid schema (%w)", err)
+		return nil, c.streamFailed(fmt.Errorf("invalid schema (%w)", err))
 	}
 	c.logger.Debugf("Schema unserialization complete.")
 
 	return unserializedSchema, nil
+}
+
+// streamFailed records that what the plugin sends cannot be read or understood, and returns the error. There is no way
+// back from that: the decoder cannot find the start of the next message in a damaged stream, and where replies are
+// told apart by their position only (ATP v1), one message too many or too few hands every later call the reply of
+// another. Execute refuses to work on such a stream.
+func (c *client) streamFailed(err error) error {
+	c.mutex.Lock()
+	defer c.mutex.Unlock()
+	if c.streamError == nil {
+		c.streamError = err
+	}
+	return err
 }
 
 func (c *client) validateVersion(serverVersion int64) error {
@@ -256,6 +271,14 @@ func (c *client) Execute(
 func (c *client) executeLegacy(stepData schema.Input, workStartMsg any, cborReader *cbor.Decoder) ExecutionResult {
 	c.legacyMutex.Lock()
 	defer c.legacyMutex.Unlock()
+	c.mutex.Lock()
+	streamError := c.streamError
+	c.mutex.Unlock()
+	if streamError != nil {
+		return NewErrorExecutionResult(fmt.Errorf(
+			"cannot execute step with run ID '%s', the connection to the plugin has failed before (%w)",
+			stepData.RunID, streamError))
+	}
 	if err := c.sendCBOR(workStartMsg); err != nil {
 		c.logger.Errorf("Step '%s' failed to write start work message: %v", stepData.ID, err)
 		return NewErrorExecutionResult(fmt.Errorf("failed to write work start message (%w)", err))
@@ -439,6 +462,10 @@ func (c *client) failAllAndStopReadLoop(err error) {
 		c.sendExecutionResult(runID, result)
 	}
 	c.readLoopRunning = false
+	if c.streamError == nil {
+		// Whatever ended the read loop (a stream that failed, a peer that gave up), no later call gets an answer.
+		c.streamError = err
+	}
 }
 
 // streamBroken ends the read loop over a message that arrived complete but makes no sense: a message type that does
@@ -611,7 +638,7 @@ func (c *client) getResultV1(
 	if err := cborReader.Decode(&doneMessage); err != nil {
 		err = fmt.Errorf("failed to read or decode work done message (%w) for step %s", err, stepData.ID)
 		c.logger.Errorf(err.Error())
-		return NewErrorExecutionResult(err)
+		return NewErrorExecutionResult(c.streamFailed(err))
 	}
 	return c.processWorkDone(stepData.RunID, doneMessage)
 }
@@ -628,6 +655,13 @@ func (c *client) prepareResultChannels(
 		// Close has told the peer that no more work is coming and is waiting for the goroutines of this client to end;
 		// registering another run would start a read loop that nothing ends any more.
 		return fmt.Errorf("the client has been closed, cannot execute step with run ID '%s'", stepData.RunID)
+	}
+	if c.streamError != nil {
+		// Checked in the critical section that registers the run: a run that registers before the failure is failed
+		// with all others, a run that comes later is refused here. Neither waits for a reply that cannot come.
+		return fmt.Errorf(
+			"cannot execute step with run ID '%s', the connection to the plugin has failed before (%w)",
+			stepData.RunID, c.streamError)
 	}
 	_, existing := c.runningStepResultEntries[stepData.RunID]
 	if existing {
